@@ -1,12 +1,23 @@
 package storage
 
 import (
+	"fmt"
 	"os"
 	"path/filepath"
 	"strings"
 )
 
 const dataPath = "data"
+
+// checkDBName reports ErrDBNameInvalid for a name that is not the name of one
+// directory entry: a database lives in the directory data/<name>, so a name
+// with a path separator, "." or ".." would be some other directory
+func checkDBName(db string) error {
+	if db == "." || db == ".." || strings.ContainsAny(db, "/\x00") || strings.ContainsRune(db, filepath.Separator) {
+		return fmt.Errorf("%w: %q", ErrDBNameInvalid, db)
+	}
+	return nil
+}
 
 func makeDBDir(db string) error {
 	err := os.MkdirAll(filepath.Join(dataPath, strings.ToLower(db)), 0755)
